@@ -47,6 +47,8 @@ def run(chk):
     e8.check_heff_factor(chk, "T6")
     chk.rule("T5", "expmv returns a combination of the orthonormal Krylov basis started from v/|v|; effective operators are linear", floor=20)
     e7.check_krylov_combination(chk, "T5", prog.func("yastn.krylov._krylov", "expmv"))
+    nr = e7.check_env_reset_per_substep(chk, "T3", prog, prog.func(TDVP, "tdvp_"))
+    chk.require(nr >= 2, f"tdvp_: routine lambdas calling the sweep functions not found ({nr}, 3 confirmed by hand)")
     ng = e7.check_local_generators(chk, "T5", prog, TDVP)
     chk.require(ng >= 4, f"local generators handed to expmv in _tdvp not found ({ng}, 6 confirmed by hand)")
     ENVM = "yastn.tn.mps._env"
